@@ -32,7 +32,7 @@ META = {
     "design_ref": "7/C30",
     "shards": {"quick": 2, "thorough": 16},
     "budget_s": {"quick": 45, "thorough": 300},
-    "min_evals": {"quick": 1500, "thorough": 50000},
+    "min_evals": {"quick": 1500, "thorough": 30000},
     "deciding": ["process_samples.expval", "process_samples.var", "process_samples.probs", "process_samples.counts",
                  "process_samples.sample", "process_counts.expval", "process_counts.var", "process_counts.probs",
                  "process_counts.counts", "process_counts.sample"],
@@ -564,7 +564,7 @@ def run(ctx):
 
     warnings.filterwarnings("ignore")
     TOL = 1e-9
-    N = ctx.n(3000, 64000)
+    N = ctx.n(3000, 24000)
     indices = range(ctx.shard, N * ctx.nshards, ctx.nshards)
     if ctx.only_case is not None:
         indices = [ctx.only_case]
